@@ -23,11 +23,11 @@ def mc(name, prof, **kw):
     return lambda v, tier, seed: mc_checks.mc_property(v, tier, seed, name, prof, d1_text=D1, **kw)
 
 
-def sim(name, which, prof=None, n_quick=600, n_thorough=30000, nontrivial=None):
+def sim(name, which, prof=None, n_quick=600, n_thorough=30000, nontrivial=None, extra=None):
     def run(v, tier, seed):
         mon = (lambda lines, impl: sim_monitors.monitor(lines, impl, which)) if which else None
         scen, impl, model, bad, monfail = sim_suite.run(v, tier, seed, prof=prof, n_quick=n_quick, n_thorough=n_thorough, name=name,
-                                                        monitor=mon, nontrivial=nontrivial or (lambda st: st["received"]))
+                                                        monitor=mon, nontrivial=nontrivial or (lambda st: st["received"]), extra=extra)
         sim_suite.report(v, bad, monfail, name, monitor=mon)
         return len(bad) + len(monfail)
     return run
@@ -96,7 +96,8 @@ PROPS = {
             "replay": sim_replay, "suites": [snapshot_check(walk=10, routes=False)]},
     "C05": {"ready": True, "replay": sim_replay,
             "suites": [sim("sim_network", "C05", dict(p_fault=0.6, p_link=0.6, p_crash=0.1, nodes=(2, 3), procs=(2, 4)),
-                           nontrivial=lambda st: st["received"] and (st["faults_on"] or st["links"]))]},
+                           nontrivial=lambda st: st["received"] and (st["faults_on"] or st["links"]),
+                           extra=lambda rng, tier: [(f"lm{i}", sim_suite.gen_link_matrix(rng)) for i in range(300 if tier == "quick" else 6000)])]},
     "C06": {"ready": True, "replay": sim_replay,
             "suites": [sim("sim_time", "C06", dict(p_random_delay=0.7, p_skew=0.6, p_clock=0.4, p_crash=0.1),
                            nontrivial=lambda st: st["received"] and st["timers_fired"])]},
@@ -117,9 +118,13 @@ PROPS = {
     "C03": {"ready": True, "partial": PARTIAL_D1, "replay": mc_checks.replay,
             "suites": [mc("mc_exhaustive", dict(depth=(2, 4)), refenum=True, cross=mc_checks.COMBOS, n_quick=250)]},
     "C07": {"ready": True, "partial": PARTIAL_D1, "replay": mc_checks.replay,
-            "suites": [mc("mc_timers", dict(p_timer=0.6, p_send=0.2, p_cancel=0.2, same_timer_name=0.5, record=0.8, depth=(3, 5),
-                                            p_fault=0.05, caches=("disabled", "full")), refenum=True,
-                          nontrivial=lambda st: st["timers"])]},
+            "suites": [mc("mc_timers", dict(p_timer=0.45, p_send=0.25, p_local=0.05, p_cancel=0.25, p_once=0.35, same_timer_name=0.35, record=0.8,
+                                            depth=(3, 5), acts=(1, 4), rules=(2, 5), locals=(1, 3), p_fault=0.05, caches=("disabled", "full")),
+                          refenum=True, n_quick=700,
+                          nontrivial=lambda st: st["timers"]),
+                       sim("sim_timers", "C07", dict(mc=dict(p_timer=0.65, p_send=0.15, p_cancel=0.2, p_once=0.45, same_timer_name=0.6, acts=(1, 4)),
+                                                     p_crash=0.05, p_link=0.05, ops=(8, 20)),
+                           nontrivial=lambda st: st["timers_fired"])]},
     "C09": {"ready": True, "replay": mc_checks.replay,
             "suites": [mc("mc_rerun", dict(two_runs=1.0, staged=0.3)), snapshot_check(walk=0, routes=False)]},
     "C10": {"ready": True, "replay": mc_checks.replay, "partial": PARTIAL_D1,
